@@ -1053,6 +1053,19 @@ func jsonPath(msg json.RawMessage, p string) json.Marshaler {
 		if json.Unmarshal(msg, &m) != nil {
 			return msg
 		}
+		key := p
+		if i := strings.IndexRune(p, '.'); i >= 0 {
+			key = p[:i]
+		}
+		if _, ok := m[key]; !ok && len(m) > 0 {
+			// Not a struct with this member, so this must be a typed
+			// map.  Project through its values like Path does.
+			result := make(marshallerArray, 0, len(m))
+			for _, v := range m {
+				result = append(result, jsonPath(v, p))
+			}
+			return result
+		}
 		return m.jsonPath(p)
 	case '[':
 		var arr []json.RawMessage
